@@ -12,6 +12,13 @@ Sub-spaces (each crossed fully inside its bound):
   unif    : every ordered sample of size 1..5 over {0.1,0.25,0.5,0.75,0.9}; lattices.
   reject  : samples with one value outside [0,1] / NaN / inf: anderson_darling_test raises.
   alpha   : every small (obs, ens) x scripted jitter x CV / KS / AD.
+  ladder  : structured integer-valued designs on a size ladder around powers of two:
+            ensrank/dscore with n forecasts 7..257 (thorough ..1025) x m in {1,2,3,5} and m members
+            7..1025 (thorough ..4097, 10001) x n = 4, against an integer Weigel-Mason model (cross-checked
+            with the Fraction model at small sizes); pit / alpha with ensemble sizes and forecast counts
+            on the ladder; CvM / AD with sample sizes on the ladder against mpmath.
+  layout  : ladder cases and the first case of units again with float32 / int64 / Fortran / strided /
+            read-only / pandas inputs: same result as the float64 C-contiguous call.
 """
 import itertools, math
 from fractions import Fraction
@@ -27,7 +34,17 @@ RULE = ("rank: every n x m forecast matrix over a small letter set (exact ties o
         "scripted answer of numpy.random.uniform (all-equal in {-e,0,+e} and one deviation per position), range, "
         "strict monotonicity in the exact count of members below, pseudo flag; uniformity: every ordered sample of "
         "size 1..5 over 5 letters and (i+d)/n lattices in 4 orders against 50-digit mpmath CvM and A2, p-values in "
-        "[0,1], order independence; rejection of out-of-range/NaN data; alpha p-values for CV/KS/AD. A case is one "
+        "[0,1], order independence; rejection of out-of-range/NaN data; alpha p-values for CV/KS/AD. Size ladder (7,8,9,15,"
+        "16,17,...,1023,1024,1025 and 100, 500, 501, 1000, 1001; thorough ..4097, 10001): four integer-valued designs "
+        "(staircase, interleaved-distinct, 5-letter tie-rich, sparse ties) with n forecasts on the ladder up to 257 "
+        "(thorough 1025) x m in {1,2,3,5} and with m members on the whole ladder x 4 forecasts, ensrank against an "
+        "integer Weigel-Mason model (2F m^2 and 2 ranks as ints; equal to the Fraction model wherever that is affordable), "
+        "dscore relations (range, perfect/inverse staircase, maps, member order, duplication, joint reversal of the "
+        "forecasts); pit with m on the ladder (9 observations per ensemble: counts 0, 1, m/2, m-1, m with and without "
+        "ties, 3 jitter scripts) and alpha with m and with the number of forecasts on the ladder; CvM / AD on lattice, "
+        "tie-rich 5-letter and clustered samples of every ladder size against mpmath; layout variants (float32, int64, "
+        "Fortran order, strided, negative stride, read-only, pandas) of the ladder cases must reproduce the float64 "
+        "C-contiguous result. A case is one "
         "call (or one call plus its differential partners); non-trivial = a tie is present (rank, pit), more than "
         "one value (uniformity), always for rejection. Cases come from nested enumeration (distinct by construction).")
 ASSUMPTIONS = [
@@ -42,6 +59,10 @@ ASSUMPTIONS = [
     "uniformity statistics are judged on the open interval; samples containing exactly 0 or 1 are executed and only the p-value range is judged",
     "anderson_darling_test returns (statistic, p-value) in this order (as alpha uses it), not the order its docstring lists",
     "extension modules rebuilt from the working tree C sources; Cython wrapper C not re-translated",
+    "size ladder: designs are integer-valued (exact ties or gaps >= 1), so the integer model (pair counts by binary search) is exact; it is compared with the Fraction model of the small space whenever n*n*m*m <= 40000; rank decisions are not judged for a pair whose exact |F - 1/2| lies in (0, 1e-7) (the kernel decides with 1e-8; can only happen for m > 2236)",
+    "dscore under joint reversal of the forecast order is demanded for distinct observations only (tied observations are ranked by position); it follows from the score depending on ranks only",
+    "ladder uniformity samples: Anderson-Darling statistic tolerance 1e-10 * max(1, n/300) relative to max(1, |A2|): the kernel accumulates n terms of size up to 2n*|log| in float64 and divides by n (observed noise 3e-13 at n = 300, 1.1e-11 at n = 10001, see check_unif_case); Cramer-von Mises 1e-11 unchanged (observed noise 2e-16)",
+    "layout variants hold exactly the same values; a layout rejected with a Python exception is accepted and counted; results must equal the float64 C-contiguous call (TOL 1e-12; observed bitwise equal). cramer_von_mises_test documents an ndarray (it reads data.shape): pandas Series and lists are executed, a rejection is accepted",
 ]
 LEVEL_NOTE = ("trusted base: CPython, numpy, fractions, mpmath (50 digits), scipy.stats.percentileofscore / kstest "
               "as called by the implementation; the runner/explorer in mc/. numpy.random.uniform is replaced by the harness.")
@@ -56,6 +77,15 @@ RANK_EXTRA = [3.0, 0.5, -1.0, 1.0001]
 PIT_EXTRA = [0.5, 3.0, -2.0, 1.5]
 ULET = [0.1, 0.25, 0.5, 0.75, 0.9]
 DELTAS = [0.5, 0.3, 0.7, 0.1]
+
+LADDER_Q = [7, 8, 9, 15, 16, 17, 31, 32, 33, 63, 64, 65, 100, 127, 128, 129, 255, 256, 257, 500, 501, 511, 512, 513,
+            1000, 1001, 1023, 1024, 1025]
+LADDER_T = LADDER_Q + [2047, 2048, 2049, 4095, 4096, 4097, 10001]
+RANK_DESIGNS = ["staircase", "interleaved", "ties5", "sparse"]
+RANK_M_SMALL = [1, 2, 3, 5]       # members when the number of forecasts is on the ladder
+RANK_N_SMALL = 4                  # forecasts when the number of members is on the ladder
+PIT_DESIGNS = ["distinct", "pairs"]
+UNIF_DESIGNS = ["ties5", "dyadic", "cluster"]
 
 MAPS = {
     "exp": lambda v: math.exp(v),
@@ -79,11 +109,18 @@ def bound_text(tier, seed):
                 "pit: n=1 m<=4, n=2 m<=2 over {-1,0,1,2}, n=1 m<=2 over +{%g}, censor {0,1}, cst {0,.3,.5,.7}, random F/T with "
                 "3 + 2n(m+1) jitter scripts; uniformity: all ordered samples of size 1..5 over 5 letters, lattices (i+d)/n "
                 "n=1..12 d in {.5,.3,.7,.1} + n in {7,50,300} d=%g in 4 orders; rejection: 155 bases x position x 9 bad "
-                "values; alpha: n*(m+1) <= 6 over {0,1,2} x scripts x CV/KS/AD" % (rx, px, d))
+                "values; alpha: n*(m+1) <= 6 over {0,1,2} x scripts x CV/KS/AD; size ladder (29 sizes 7..1025 around powers of two): "
+                "ensrank/dscore 4 designs x [n forecasts in 7..257 x m in {1,2,3,5}; 4 forecasts x m members in 7..1025], pit 2 designs x m in "
+                "7..1025 x 9 observations x 2 censor x (2 cst + 3 cst x 3 scripts), alpha (9 x m) and (n x 5) for n, m in 7..1025 x CV/KS/AD x 2 "
+                "scripts, CvM/AD lattice d=%g in 4 orders + 3 designs x 2 orders for n in 7..1025; layouts (8-10 per call) on the ladder cases "
+                "and the first case of every rank/pit/unif/alpha unit" % (rx, px, d, d))
     return ("rank: n in 2..4 x m in 1..3, n*m <= 9, all matrices and obs over {0,1,2}; n*m <= 6 over {0,1,2,%g}; m in {5,8} "
             "x n in {2,3,4} with <= 2 changed entries; pit: n=1 m<=5, n=2 m<=2, n=3 m=1 (and n=2 m=3 for random=False) over {-1,0,1,2}, n=1 m<=3 over +{%g}; "
             "uniformity: size 1..5 over 5 letters, size 1..6 over {.1,.5,.9} and {1e-9,.5,1-1e-9}, lattices n=1..40 + "
-            "{7,50,300}; rejection as quick + size 4; alpha: n*(m+1) <= 8" % (rx, px))
+            "{7,50,300}; rejection as quick + size 4; alpha: n*(m+1) <= 8; size ladder (36 sizes 7..4097 around powers of two and 10001): "
+            "ensrank/dscore 4 designs x [n forecasts in 7..1025 x m in {1,2,3,5}; 4 forecasts x m members in 7..10001], pit 2 designs x m in "
+            "7..10001 x 9 observations, alpha (9 x m) and (n x 5), CvM/AD lattice in 4 orders + 3 designs x 2 orders for n in 7..10001; layouts "
+            "as quick" % (rx, px))
 
 
 def jl(v):
@@ -291,6 +328,7 @@ def run_rank(unit, ctx):
     pre = [letters[i] for i in unit["prefix"]]
     obsl = unit["obsletters"]
     first = True
+    laid = False
     for rest in itertools.product(letters, repeat=n * m - len(pre)):
         flat = pre + list(rest)
         sim = [flat[i * m:(i + 1) * m] for i in range(n)]
@@ -301,6 +339,11 @@ def run_rank(unit, ctx):
         check_rank_case(ctx, sim, model)
         for obs in itertools.product(obsl, repeat=n):
             check_dscore_case(ctx, list(obs), sim, model)
+            if not laid and len(set(model[1])) > 1 and len(set(obs)) == n:
+                # layout variants on the first case of the unit with distinct observations and unequal forecast ranks
+                check_dscore_layouts(ctx, {"kind": "dscorelayout", "obs": list(obs), "sim": [list(r) for r in sim]},
+                                     np.array(obs, dtype=np.float64), np.array(sim, dtype=np.float64).reshape(n, m))
+                laid = True
 
 
 def rankdev_base(n, m):
@@ -490,6 +533,7 @@ def run_pit(unit, ctx):
                         if first:
                             ctx.case(False, n=0, sample=pit_case(obs, ens, random, cst, censor, sc))
                             first = False
+                            check_pit_layouts(ctx, obs, ens, random, cst, censor, sc)
                         check_pit_case(ctx, obs, ens, random, cst, censor, sc, groups)
     finish_pit_groups(ctx, groups)
 
@@ -553,6 +597,7 @@ def check_unif_case(ctx, data):
         cv = None
     if cv is not None:
         ctx.case(nt, outcome=repr((cv, cvp)))
+        # (observed noise at most 2e-16 up to n = 10001: pairwise numpy sum of squares)
         if inopen and not close(cv, wref, 1e-11):
             ctx.violation("cvm:statistic", case, "CvM statistic %r, textbook 1/(12n) + sum (x_(i) - (2i-1)/(2n))^2 = %r" % (cv, wref),
                           observed=cv, expected=wref)
@@ -573,7 +618,11 @@ def check_unif_case(ctx, data):
     if ad is not None:
         ctx.case(nt, outcome=repr((ad, adp)))
         if inopen:
-            if not close(ad, aref, 1e-10):
+            # the kernel accumulates n terms (2i+1) log t of size up to 2n |log t| one after the other and forms -n + z/n:
+            # the noise grows about linearly with n (observed on lattice, 5-letter, dyadic and clustered samples:
+            # 3e-13 at n = 300, 1.1e-12 at 1025, 6.5e-12 at 4097, 1.1e-11 at 10001); 1e-10 up to n = 300 as
+            # before, then 1e-10 * n/300 (>= 300 x the observed noise at every ladder size)
+            if not close(ad, aref, 1e-10 * max(1.0, n / 300.0)):
                 ctx.violation("ad:statistic", case,
                               "A2 statistic %r, textbook -n - (1/n) sum (2i-1)[ln x_(i) + ln(1 - x_(n+1-i))] = %r" % (ad, aref),
                               observed=ad, expected=aref)
@@ -626,6 +675,7 @@ def run_unif(unit, ctx):
         if first:
             ctx.case(False, n=0, sample={"kind": "unif", "data": data})
             first = False
+            check_unif_layouts(ctx, data)
         check_unif_case(ctx, data)
 
 
@@ -810,8 +860,497 @@ def run_alpha(unit, ctx):
                         ctx.case(False, n=0, sample={"kind": "alpha", "obs": list(obs), "ens": ens, "type": typ,
                                                       "script": [list(sc[0]), [list(r) for r in sc[1]]]})
                         first = False
+                        check_alpha_layouts(ctx, list(obs), ens, sc)
                     check_alpha_case(ctx, list(obs), ens, typ, sc)
 
+
+
+# =========================================================== size ladder: ensrank / dscore
+def wm_model_int(a):
+    """integer Weigel-Mason model for an (n, m) float array whose values are exactly tied or clearly apart:
+    twoS[i, j] = 2 #{(v, w) in e_i x e_j : w < v} + #{w == v}  (so F(i, j) = twoS / (2 m^2), F(j, i) = 1 - F(i, j))
+    tworank[i] = 2 + sum_{j != i} (0 | 1 | 2 for F(i, j) < | = | > 1/2)   (twice the Weigel-Mason rank)"""
+    a = np.asarray(a, dtype=np.float64)
+    n, m = a.shape
+    srt = np.sort(a, axis=1)
+    twoS = np.zeros((n, n), dtype=np.int64)
+    for j in range(n):
+        left = np.searchsorted(srt[j], a, side="left")
+        right = np.searchsorted(srt[j], a, side="right")
+        twoS[:, j] = (left + right).sum(axis=1)
+    if not np.array_equal(twoS + twoS.T, np.full((n, n), 2 * m * m, dtype=np.int64)):
+        raise RuntimeError("harness: integer Weigel-Mason model inconsistent")
+    u2 = np.sign(twoS - m * m) + 1          # 0 / 1 / 2
+    np.fill_diagonal(u2, 0)
+    tworank = 2 + u2.sum(axis=1)
+    return twoS, tworank
+
+
+def coprime_step(n, start=37):
+    q = start
+    while math.gcd(q, n) != 1:
+        q += 1
+    return q
+
+
+def rank_design(design, n, m):
+    """(n, m) float64 matrix of integer values"""
+    i = np.arange(n, dtype=np.int64)[:, None]
+    j = np.arange(m, dtype=np.int64)[None, :]
+    if design == "staircase":          # forecast i entirely below forecast i+1, forecasts stored in a scrambled order
+        v = ((i * coprime_step(n)) % n) * (m + 1) + (j * coprime_step(m, 3)) % m
+    elif design == "interleaved":      # all n*m values distinct, every pair of ensembles interleaved: |F - 1/2| = 1/(2m)
+        v = j * n + (i * coprime_step(n, 5)) % n
+    elif design == "ties5":            # five letters: heavy ties within and across ensembles
+        v = (3 * i * i + 7 * j + i * j + (i >> 3)) % 5
+    elif design == "sparse":           # pseudo-random values in a range of 2nm: some ties
+        v = (131 * i + 17 * j * j + (i * j) % 11 + 29 * ((i + j) % 7)) % (2 * n * m + 1)
+    else:
+        raise ValueError(design)
+    return np.ascontiguousarray(v, dtype=np.float64)
+
+
+def np_maps(vmax):
+    """strictly increasing maps that keep integer values below vmax exactly tied or >= 2e-5 apart"""
+    out = [("affine", lambda x: 3.0 * x - 7.0), ("affine-small", lambda x: 0.5 * x + 2.0),
+           ("affine-huge", lambda x: x * 2.0 ** 55 + 2.0 ** 60), ("affine-neg-huge", lambda x: x * 2.0 ** 55 - 2.0 ** 60)]
+    if vmax < 2.0 ** 17:
+        out.append(("cubic", lambda x: x * x * x))
+    if vmax <= 4.0:
+        out += [("exp", np.exp), ("arctan", np.arctan), ("exp-steep", lambda x: np.exp(20.0 * x))]
+    return out
+
+
+def dscore_np(obs, sim):
+    from hydrodiy.stat import metrics
+    return float(metrics.dscore(obs, sim))
+
+
+def rank_layouts(obs, sim):
+    """[(name, obs object, sim object)] holding the same (integer) values"""
+    import pandas as pd
+    n, m = sim.shape
+    out = []
+    if np.array_equal(sim.astype(np.float32).astype(np.float64), sim) and np.array_equal(obs.astype(np.float32).astype(np.float64), obs):
+        out.append(("float32", obs.astype(np.float32), sim.astype(np.float32)))
+    if np.all(sim == np.round(sim)) and np.all(obs == np.round(obs)) and max(np.abs(sim).max(), np.abs(obs).max()) < 2.0 ** 31:
+        out.append(("int64", obs.astype(np.int64), sim.astype(np.int64)))
+        out.append(("int32", obs.astype(np.int32), sim.astype(np.int32)))
+    out.append(("fortran", obs.copy(), np.asfortranarray(sim.copy())))
+    big = np.full((n, 2 * m + 1), -5.0)
+    big[:, 1::2] = sim
+    bo = np.full(2 * n + 1, -5.0)
+    bo[1::2] = obs
+    out.append(("strided", bo[1::2], big[:, 1::2]))
+    bigr = np.full((2 * n + 1, m), -5.0)
+    bigr[1::2, :] = sim
+    out.append(("strided-rows", obs.copy(), bigr[1::2, :]))
+    rs = sim[::-1, ::-1].copy()
+    ro_ = obs[::-1].copy()
+    out.append(("negative-stride", ro_[::-1], rs[::-1, ::-1]))
+    o2, s2 = obs.copy(), sim.copy()
+    o2.flags.writeable = False
+    s2.flags.writeable = False
+    out.append(("read-only", o2, s2))
+    out.append(("pandas", pd.Series(obs.copy()), pd.DataFrame(sim.copy())))
+    out.append(("obs-column-nx1", obs.reshape(-1, 1).copy(), sim.copy()))
+    return out
+
+
+def check_dscore_layouts(ctx, case, obs, sim):
+    try:
+        base = dscore_np(obs.copy(), sim.copy())
+    except Exception:
+        ctx.count("layout.base_raised")
+        return
+    if math.isnan(base):
+        ctx.count("layout.base_nan")
+        return
+    for name, o, s_ in rank_layouts(obs, sim):
+        try:
+            D = dscore_np(o, s_)
+        except Exception:
+            ctx.case(True, outcome="raise:" + name)
+            ctx.count("layout.rejected.dscore:%s" % name)
+            continue
+        ctx.case(True, outcome=repr(D))
+        ctx.count("layout.judged.dscore:%s" % name)
+        if not close(D, base):
+            ctx.violation("dscore:layout=%s" % name, dict(case, layout=name),
+                          "dscore with the inputs given as %s (n=%d, m=%d) = %r, the float64 C-contiguous call gives %r" % (
+                              name, sim.shape[0], sim.shape[1], D, base), observed=D, expected=base)
+
+
+def check_rank_ladder(ctx, design, n, m):
+    case = {"kind": "rankladder", "design": design, "n": n, "m": m}
+    sim = rank_design(design, n, m)
+    twoS, tworank = wm_model_int(sim)
+    if n * n * m * m <= 40000:
+        # the integer model against the definitional Fraction model of the small space
+        F, R = wm_model([list(map(float, r)) for r in sim])
+        if any(Fraction(int(twoS[i1, i2]), 2 * m * m) != f for (i1, i2), f in F.items()) or \
+                [Fraction(int(t), 2) for t in tworank] != R:
+            raise RuntimeError("harness: integer and Fraction Weigel-Mason models disagree for %r" % (case,))
+        ctx.count("ladder.model_crosschecked_with_fractions")
+    vals = np.unique(sim)
+    has_tie = vals.size < n * m
+    try:
+        ierr, fmat, ranks = call_ensrank(sim)
+    except Exception as e:
+        ctx.case(has_tie)
+        ctx.violation("ensrank:ladder:raised:%s" % type(e).__name__, case, "ensrank raised %r" % (e,))
+        return
+    ctx.case(has_tie, outcome=hash(fmat.tobytes() + ranks.tobytes()))
+    ctx.count("ladder.rank_cases")
+    ctx.count("ladder.rank.n=%d" % n if n != RANK_N_SMALL else "ladder.rank.m=%d" % m)
+    if ierr != 0:
+        ctx.violation("ensrank:ladder:ierr", case, "ensrank returned error code %r" % (ierr,))
+        return
+    iu = np.triu_indices(n, 1)
+    fexp = twoS[iu].astype(np.float64) / (2.0 * m * m)
+    bad = np.nonzero(~(np.abs(fmat[iu] - fexp) <= TOL))[0]
+    if bad.size:
+        k = int(bad[0])
+        i1, i2 = int(iu[0][k]), int(iu[1][k])
+        ctx.violation("ensrank:ladder:fmat:%s" % design, case,
+                      "n=%d forecasts, m=%d members (%s): F[%d,%d] = %r, Weigel-Mason mid-rank comparison gives %d/%d (%d of %d pairs differ)" % (
+                          n, m, design, i1, i2, float(fmat[i1, i2]), int(twoS[i1, i2]), 2 * m * m, bad.size, fexp.size),
+                      observed=float(fmat[i1, i2]), expected=float(fexp[k]))
+    near = np.abs(twoS[iu] - m * m)
+    if np.any((near > 0) & (near < 2e-7 * m * m)):
+        ctx.count("unjudged.ladder.F_within_1e-7_of_half")
+    else:
+        rexp = tworank.astype(np.float64) / 2.0
+        badr = np.nonzero(~(np.abs(ranks - rexp) <= TOL))[0]
+        if badr.size:
+            k = int(badr[0])
+            ctx.violation("ensrank:ladder:ranks:%s" % design, case,
+                          "n=%d forecasts, m=%d members (%s): rank[%d] = %r, Weigel-Mason rank %r (%d of %d ranks differ)" % (
+                              n, m, design, k, float(ranks[k]), float(rexp[k]), badr.size, n),
+                          observed=[float(v) for v in ranks[:40]], expected=[float(v) for v in rexp[:40]])
+    vmax = float(np.max(np.abs(sim)))
+    maps = np_maps(vmax)
+    for name, g in maps:
+        try:
+            ierr2, fmat2, ranks2 = call_ensrank(g(sim))
+        except Exception as e:
+            ctx.violation("ensrank:ladder:sim-map:%s:raised" % name, case, "raised %r" % (e,))
+            continue
+        ctx.case(has_tie)
+        if ierr2 != 0 or not np.allclose(fmat2, fmat, rtol=0, atol=TOL) or not np.allclose(ranks2, ranks, rtol=0, atol=TOL):
+            ctx.violation("ensrank:ladder:sim-map:%s" % name, case,
+                          "n=%d, m=%d (%s): ranks / F change under the strictly increasing map %s of all forecasts (%d ranks, %d F values differ)" % (
+                              n, m, design, name, int((np.abs(ranks2 - ranks) > TOL).sum()), int((np.abs(fmat2 - fmat) > TOL).sum())))
+    # ---- dscore relations
+    q = coprime_step(n, 41)
+    obs_sets = [("distinct", ((np.arange(n) * q) % n).astype(np.float64)),
+                ("tied", (((np.arange(n) * q) % n) // 3).astype(np.float64))]
+    if design == "staircase":
+        true_order = ((np.arange(n) * coprime_step(n)) % n).astype(np.float64)
+        obs_sets += [("perfect", true_order), ("inverse", -true_order)]
+    allsame = np.unique(tworank).size == 1
+    for oname, obs in obs_sets:
+        c = dict(case, obs=oname)
+        try:
+            D = dscore_np(obs.copy(), sim.copy())
+        except Exception as e:
+            ctx.case(has_tie)
+            ctx.violation("dscore:ladder:raised:%s" % type(e).__name__, c, "dscore raised %r" % (e,))
+            continue
+        ctx.case(has_tie, outcome=repr(D))
+        ctx.count("ladder.dscore_cases")
+        if allsame:
+            ctx.count("unjudged.all_forecast_ranks_equal")
+            continue
+        if math.isnan(D) or not (-TOL <= D <= 1 + TOL):
+            ctx.violation("dscore:ladder:range", c, "n=%d, m=%d (%s, %s observations): D = %r outside [0, 1]" % (n, m, design, oname, D), observed=D)
+            continue
+        if oname == "perfect" and not close(D, 1.0):
+            ctx.violation("dscore:ladder:perfect-order-not-1", c, "n=%d, m=%d: forecasts order the distinct observations perfectly but D = %r" % (n, m, D),
+                          observed=D, expected=1.0)
+        if oname == "inverse" and abs(D) > TOL:
+            ctx.violation("dscore:ladder:inverse-order-not-0", c, "n=%d, m=%d: forecasts order the distinct observations inversely but D = %r" % (n, m, D),
+                          observed=D, expected=0.0)
+        rel = [("member-order", obs, sim[:, ::-1].copy()), ("duplicated-members", obs, np.repeat(sim, 2, axis=1))]
+        if oname != "tied":
+            rel.append(("forecast-order", obs[::-1].copy(), sim[::-1, :].copy()))
+        if oname in ("distinct", "tied"):
+            for name, g in maps:
+                rel.append(("sim-map:" + name, obs, g(sim)))
+            for name, g in np_maps(float(n)):
+                rel.append(("obs-map:" + name, g(obs), sim))
+        for rname, o2, s2 in rel:
+            try:
+                D2 = dscore_np(np.ascontiguousarray(o2), np.ascontiguousarray(s2))
+            except Exception as e:
+                ctx.violation("dscore:ladder:%s:raised" % rname, c, "raised %r" % (e,))
+                continue
+            ctx.case(has_tie)
+            if not close(D2, D):
+                ctx.violation("dscore:ladder:%s" % rname, c,
+                              "n=%d, m=%d (%s, %s observations): D = %r, but %r after %s" % (n, m, design, oname, D, D2, rname),
+                              observed=D2, expected=D)
+        if oname in ("distinct", "tied"):
+            check_dscore_layouts(ctx, c, obs, sim)
+
+
+def run_rankladder(unit, ctx):
+    first = True
+    for n, m in unit["shapes"]:
+        for design in RANK_DESIGNS:
+            if first:
+                ctx.case(False, n=0, sample={"kind": "rankladder", "design": design, "n": n, "m": m})
+                first = False
+            check_rank_ladder(ctx, design, n, m)
+
+
+# =========================================================== size ladder: pit / alpha
+def pit_design(design, m):
+    """one ensemble of m integer-valued members and 9 observations around it"""
+    if design == "distinct":
+        row = [float((j * coprime_step(m, 3)) % m) for j in range(m)]          # 0..m-1, scrambled
+    else:
+        row = [float(((j * coprime_step(m, 3)) % m) // 2) for j in range(m)]   # pairs of tied members
+    top = max(row)
+    mid = float(int(top) // 2)
+    obs = [-0.5, 0.5, mid + 0.5, top - 0.5, top + 0.5, 0.0, mid, top, -3.0]
+    return obs, [list(row) for _ in obs]
+
+
+def pit_ladder_scripts(n, m):
+    z = ([0.0] * n, [[0.0] * m for _ in range(n)])
+    up = ([JIT] * n, [[JIT] * m for _ in range(n)])
+    mixed = ([-JIT if i % 2 else JIT for i in range(n)], [[(JIT if (i + j) % 3 == 0 else (-JIT if (i + j) % 3 == 1 else 0.0)) for j in range(m)] for i in range(n)])
+    return [z, up, mixed]
+
+
+def pit_layouts(obs, ens):
+    import pandas as pd
+    o = np.array(obs, dtype=np.float64)
+    e = np.array(ens, dtype=np.float64)
+    n, m = e.shape
+    out = []
+    if np.array_equal(o.astype(np.float32).astype(np.float64), o) and np.array_equal(e.astype(np.float32).astype(np.float64), e):
+        out.append(("float32", o.astype(np.float32), e.astype(np.float32)))
+    if np.all(o == np.round(o)) and np.all(e == np.round(e)):
+        out.append(("int64", o.astype(np.int64), e.astype(np.int64)))
+    out.append(("fortran", o.copy(), np.asfortranarray(e.copy())))
+    big = np.full((n, 2 * m + 1), -5.0)
+    big[:, 1::2] = e
+    bo = np.full(2 * n + 1, -5.0)
+    bo[1::2] = o
+    out.append(("strided", bo[1::2], big[:, 1::2]))
+    o2, e2 = o.copy(), e.copy()
+    o2.flags.writeable = False
+    e2.flags.writeable = False
+    out.append(("read-only", o2, e2))
+    out.append(("pandas", pd.Series(o.copy()), pd.DataFrame(e.copy())))
+    out.append(("obs-column-nx1", o.reshape(-1, 1).copy(), e.copy()))
+    out.append(("lists", [float(v) for v in o], [[float(v) for v in r] for r in e]))
+    return out
+
+
+def check_pit_layouts(ctx, obs, ens, random, cst, censor, script):
+    from hydrodiy.stat import metrics
+    case = dict(pit_case(obs, ens, random, cst, censor, script), kind="pitlayout")
+
+    def call(o, e):
+        if not random:
+            return metrics.pit(o, e, random=False, cst=cst, censor=censor)
+        orig = np.random.uniform
+        np.random.uniform = Script([script[0], script[1]], orig)
+        try:
+            return metrics.pit(o, e, random=True, cst=cst, censor=censor)
+        finally:
+            np.random.uniform = orig
+    try:
+        bp, bs = call(np.array(obs, dtype=np.float64), np.array(ens, dtype=np.float64))
+        bp, bs = np.asarray(bp, dtype=np.float64), np.asarray(bs)
+    except Exception:
+        ctx.count("layout.base_raised")
+        return
+    for name, o, e in pit_layouts(obs, ens):
+        try:
+            p_, s_ = call(o, e)
+            p_, s_ = np.asarray(p_, dtype=np.float64), np.asarray(s_)
+        except Exception:
+            ctx.case(True, outcome="raise:" + name)
+            ctx.count("layout.rejected.pit:%s" % name)
+            continue
+        ctx.case(True, outcome=p_.tobytes())
+        ctx.count("layout.judged.pit:%s" % name)
+        if p_.shape != bp.shape or not np.allclose(p_, bp, rtol=0, atol=TOL) or not np.array_equal(s_.astype(bool), bs.astype(bool)):
+            ctx.violation("pit:random=%s:layout=%s" % (random, name), dict(case, layout=name),
+                          "pit with the inputs given as %s (m=%d): PIT %r flags %r, the float64 C-contiguous call gives %r %r" % (
+                              name, len(ens[0]), p_.tolist()[:12], s_.tolist()[:12], bp.tolist()[:12], bs.tolist()[:12]),
+                          observed=p_.tolist()[:50], expected=bp.tolist()[:50])
+
+
+def check_pit_ladder(ctx, design, m):
+    obs, ens = pit_design(design, m)
+    n = len(obs)
+    groups = {}
+    ctx.count("ladder.pit.m=%d" % m)
+    for censor in (0.0, float(m // 4)):
+        for random in (False, True):
+            for cst in ((0.3, 0.0) if not random else (0.3, 0.0, 0.5)):
+                for sc in (pit_ladder_scripts(n, m) if random else [None]):
+                    ctx.count("ladder.pit_cases")
+                    check_pit_case(ctx, obs, ens, random, cst, censor, sc, groups)
+    finish_pit_groups(ctx, groups)
+    check_pit_layouts(ctx, obs, ens, False, 0.3, 0.0, None)
+    check_pit_layouts(ctx, obs, ens, True, 0.3, float(m // 4), pit_ladder_scripts(n, m)[2])
+
+
+def alpha_design(n, m):
+    obs = [float((i * 5) % 11) for i in range(n)]
+    ens = [[float((i * 3 + j * 7 + (i * j) % 5) % 11) for j in range(m)] for i in range(n)]
+    return obs, ens
+
+
+def check_alpha_ladder(ctx, n, m):
+    obs, ens = alpha_design(n, m)
+    z = ([0.0] * n, [[0.0] * m for _ in range(n)])
+    mixed = pit_ladder_scripts(n, m)[2]
+    ctx.count("ladder.alpha_shapes")
+    for typ in ("CV", "KS", "AD"):
+        for sc in (z, mixed):
+            ctx.count("ladder.alpha_cases")
+            check_alpha_case(ctx, obs, ens, typ, sc)
+    check_alpha_layouts(ctx, obs, ens, mixed)
+
+
+def check_alpha_layouts(ctx, obs, ens, script):
+    from hydrodiy.stat import metrics
+    case = {"kind": "alphalayout", "obs": list(obs), "ens": [list(r) for r in ens], "script": [list(script[0]), [list(r) for r in script[1]]]}
+
+    def call(o, e, typ):
+        orig = np.random.uniform
+        np.random.uniform = Script([script[0], script[1]], orig)
+        try:
+            st, pv, sudo = metrics.alpha(o, e, type=typ)
+        finally:
+            np.random.uniform = orig
+        return float(st), float(pv), np.asarray(sudo).astype(bool)
+    for typ in ("CV", "AD", "KS"):
+        try:
+            b = call(np.array(obs, dtype=np.float64), np.array(ens, dtype=np.float64), typ)
+        except Exception:
+            ctx.count("layout.base_raised")
+            continue
+        for name, o, e in pit_layouts(obs, ens):
+            try:
+                r = call(o, e, typ)
+            except Exception:
+                ctx.case(True, outcome="raise:" + name)
+                ctx.count("layout.rejected.alpha:%s" % name)
+                continue
+            ctx.case(True, outcome=repr(r[:2]))
+            ctx.count("layout.judged.alpha:%s" % name)
+            same = all((close(x, y, 1e-11) or x == y or (math.isnan(x) and math.isnan(y))) for x, y in zip(r[:2], b[:2])) and \
+                r[2].shape == b[2].shape and np.array_equal(r[2], b[2])
+            if not same:
+                ctx.violation("alpha:%s:layout=%s" % (typ, name), dict(case, type=typ, layout=name),
+                              "alpha(type=%s) with the inputs given as %s (n=%d, m=%d): (statistic, p-value) %r, the float64 C-contiguous call gives %r" % (
+                                  typ, name, len(obs), len(ens[0]), r[:2], b[:2]), observed=list(r[:2]), expected=list(b[:2]))
+
+
+def run_pitladder(unit, ctx):
+    first = True
+    for m in unit["ms"]:
+        for design in PIT_DESIGNS:
+            if first:
+                ctx.case(False, n=0, sample={"kind": "pitladder", "design": design, "m": m})
+                first = False
+            check_pit_ladder(ctx, design, m)
+        check_alpha_ladder(ctx, 9, m)       # ensemble size on the ladder
+        check_alpha_ladder(ctx, m, 5)       # number of forecasts (= size of the PIT sample tested) on the ladder
+
+
+# =========================================================== size ladder: uniformity statistics
+def unif_design(design, n):
+    if design == "ties5":              # five letters, heavy ties
+        return [ULET[(3 * i + i // 7) % 5] for i in range(n)]
+    if design == "dyadic":             # (k + 1/2)/64 lattice with ties: exactly representable in float32
+        return [(((5 * i + i // 9) % 64) + 0.5) / 64.0 for i in range(n)]
+    if design == "cluster":            # n distinct values inside (3/8, 5/8), scrambled order
+        q = coprime_step(n, 7)
+        return [0.375 + (((i * q) % n) + 0.5) / (4.0 * n) for i in range(n)]
+    raise ValueError(design)
+
+
+def unif_layouts(data):
+    import pandas as pd
+    a = np.array(data, dtype=np.float64)
+    n = len(a)
+    out = []
+    if np.array_equal(a.astype(np.float32).astype(np.float64), a):
+        out.append(("float32", a.astype(np.float32)))
+    big = np.full(2 * n + 1, 0.5)
+    big[1::2] = a
+    out.append(("strided", big[1::2]))
+    rev = a[::-1].copy()
+    out.append(("negative-stride", rev[::-1]))
+    ro = a.copy()
+    ro.flags.writeable = False
+    out.append(("read-only", ro))
+    m2 = np.full((n, 2), 0.25)
+    m2[:, 1] = a
+    out.append(("column-of-2d", m2[:, 1]))
+    out.append(("pandas-series", pd.Series(a.copy())))
+    out.append(("list", [float(v) for v in a]))
+    return out
+
+
+def check_unif_layouts(ctx, data):
+    from hydrodiy.stat import metrics
+    case = {"kind": "uniflayout", "data": list(data)}
+    n = len(data)
+    for fname, fn in (("cvm", metrics.cramer_von_mises_test), ("ad", metrics.anderson_darling_test)):
+        try:
+            b = fn(np.array(data, dtype=np.float64))
+            b = (float(b[0]), float(b[1]))
+        except Exception:
+            ctx.count("layout.base_raised")
+            continue
+        for name, arr in unif_layouts(data):
+            keep = np.array(arr, dtype=np.float64).copy() if not isinstance(arr, list) else None
+            try:
+                r = fn(arr)
+                r = (float(r[0]), float(r[1]))
+            except Exception:
+                ctx.case(True, outcome="raise:" + name)
+                ctx.count("layout.rejected.%s:%s" % (fname, name))
+                continue
+            ctx.case(True, outcome=repr(r))
+            ctx.count("layout.judged.%s:%s" % (fname, name))
+            if not all((close(x, y, 1e-11) or x == y or (math.isnan(x) and math.isnan(y))) for x, y in zip(r, b)):
+                ctx.violation("%s:layout=%s" % (fname, name), dict(case, layout=name),
+                              "%s test of the sample given as %s (n=%d): (statistic, p-value) %r, the float64 C-contiguous call gives %r" % (
+                                  fname, name, n, r, b), observed=list(r), expected=list(b))
+            if keep is not None and not np.array_equal(np.array(arr, dtype=np.float64), keep):
+                ctx.count("note.input_array_modified")
+
+
+def run_unifladder(unit, ctx):
+    first = True
+    seed = unit["seed"]
+    d = DELTAS[seed % 4]
+    for n in unit["ns"]:
+        ctx.count("ladder.unif.n=%d" % n)
+        vals = [(i + d) / n for i in range(n)]
+        samples = lattice_orders(vals, seed)
+        for design in UNIF_DESIGNS:
+            data = unif_design(design, n)
+            samples += [data, sorted(data, reverse=True)]
+        for data in samples:
+            if first:
+                ctx.case(False, n=0, sample={"kind": "unifladder", "n": n, "data[:8]": data[:8]})
+                first = False
+            ctx.count("ladder.unif_samples")
+            check_unif_case(ctx, data)
+        check_unif_layouts(ctx, samples[2] if len(samples) > 2 else samples[0])
+        check_unif_layouts(ctx, unif_design("dyadic", n))
 
 # =========================================================== units / dispatch
 def rank_units(n, m, letters, target, tag):
@@ -887,13 +1426,38 @@ def units(tier, seed):
                 for typ in ("CV", "KS", "AD"):
                     us.append({"kind": "alpha", "n": n, "m": m, "letters": L3, "types": [typ],
                                "ks_equal_only": n * (m + 1) > 6})
+    # ---- size ladder around powers of two (thresholds of blocked / fast paths, int overflow of n*n or 2*m)
+    lad = LADDER_Q if quick else LADDER_T
+    nmax = 257 if quick else 1025
+
+    def chunks(items, cost, limit):
+        out, cur, acc = [], [], 0.0
+        for it in items:
+            cur.append(it)
+            acc += cost(it)
+            if acc >= limit:
+                out.append(cur)
+                cur, acc = [], 0.0
+        if cur:
+            out.append(cur)
+        return out
+    shapes = [(n, m) for n in lad if n <= nmax for m in RANK_M_SMALL]
+    for ch in chunks(shapes, lambda nm: nm[0] * nm[0] * (1 + nm[1]) + 20000, 4.0e5 if quick else 4.0e6):
+        us.append({"kind": "rankladder", "shapes": [list(x) for x in ch]})
+    for ch in chunks([(RANK_N_SMALL, m) for m in lad], lambda nm: nm[1] + 100, 2500):
+        us.append({"kind": "rankladder", "shapes": [list(x) for x in ch]})
+    for ch in chunks(lad, lambda m: m + 100, 1500):
+        us.append({"kind": "pitladder", "ms": ch})
+    for ch in chunks(lad, lambda n: n + 50, 1500):
+        us.append({"kind": "unifladder", "ns": ch, "seed": seed})
     return us
 
 
 def run_unit(unit, ctx):
     k = unit["kind"]
     {"rank": run_rank, "rankdev": run_rankdev, "pit": run_pit, "unif": run_unif, "lattice": run_lattice,
-     "reject": run_reject, "alpha": run_alpha}[k](unit, ctx)
+     "reject": run_reject, "alpha": run_alpha, "rankladder": run_rankladder, "pitladder": run_pitladder,
+     "unifladder": run_unifladder}[k](unit, ctx)
 
 
 def _unj(v):
@@ -929,4 +1493,19 @@ def replay(case):
     elif k == "alpha":
         sc = case["script"]
         check_alpha_case(ctx, case["obs"], case["ens"], case["type"], (sc[0], sc[1]))
+    elif k == "rankladder":
+        check_rank_ladder(ctx, case["design"], case["n"], case["m"])
+    elif k == "dscorelayout":
+        sim = np.array(case["sim"], dtype=np.float64)
+        check_dscore_layouts(ctx, {"kind": "dscorelayout", "obs": case["obs"], "sim": case["sim"]},
+                             np.array(case["obs"], dtype=np.float64), sim.reshape(len(case["sim"]), -1))
+    elif k == "pitlayout":
+        sc = case["script"]
+        check_pit_layouts(ctx, case["obs"], case["ens"], case["random"], case["cst"], case["censor"],
+                          None if sc is None else (sc[0], sc[1]))
+    elif k == "alphalayout":
+        sc = case["script"]
+        check_alpha_layouts(ctx, case["obs"], case["ens"], (sc[0], sc[1]))
+    elif k == "uniflayout":
+        check_unif_layouts(ctx, [float(v) for v in case["data"]])
     return [v for lst in ctx.violations.values() for v in lst]
